@@ -694,6 +694,15 @@ func restoreGroupState(group *metadatapb.ConsumerGroup) *groupState {
 		assignments:      make(map[string][]assignmentTopic),
 		rebalanceTimeout: rebalanceTimeout,
 	}
+	// Which members already rejoined the current generation is not persisted.
+	// Outside a rebalance every member belongs to the current generation. While
+	// the group is still collecting joins nobody is known to have rejoined: the
+	// members keep polling JoinGroup and register again, and the rebalance must
+	// not complete before all of them did.
+	joinGeneration := group.GenerationId
+	if state.state == groupStatePreparingRebalance {
+		joinGeneration = 0
+	}
 	for memberID, member := range group.Members {
 		sessionTimeout := defaultSessionTimeout
 		if member.SessionTimeoutMs > 0 {
@@ -702,7 +711,7 @@ func restoreGroupState(group *metadatapb.ConsumerGroup) *groupState {
 		entry := &memberState{
 			topics:         append([]string(nil), member.Subscriptions...),
 			sessionTimeout: sessionTimeout,
-			joinGeneration: group.GenerationId,
+			joinGeneration: joinGeneration,
 		}
 		if member.HeartbeatAt != "" {
 			if parsed, err := time.Parse(time.RFC3339Nano, member.HeartbeatAt); err == nil {
